@@ -548,7 +548,9 @@ func (x *fnCtx) step(st *State, fr *Frame, in ssa.Instruction) {
 	case *ssa.Select:
 		fr.regs[v] = x.selectOp(st, fr, v)
 	case *ssa.Send:
-		x.getVal(st, fr, v.Chan)
+		ch := x.getVal(st, fr, v.Chan)
+		val := x.getVal(st, fr, v.X)
+		x.sendEvent(st, fr, v, ch, val)
 	case *ssa.SliceToArrayPointer, *ssa.MultiConvert:
 		x.eng.logAbs("%s: unsupported conversion %T havoced", x.short, in)
 		fr.regs[in.(ssa.Value)] = x.havocVal(st, in.(ssa.Value).Type(), "conv")
